@@ -1,5 +1,6 @@
 """C01 — path access returns the addressed object or pinpoints the failing segment."""
 from pyvc.verify import Post, Case, Equiv, NativeFacts
+from contracts import extra
 from contracts import common, C02
 
 PROPERTY = 'C01'
@@ -34,7 +35,7 @@ def contracts():
         ('tuple->_get_sequence_item', "get handler of tuple is _get_sequence_item", lambda f: reg(f, tuple) is f.native('core', '_get_sequence_item')),
         ('object->getattr', "get handler of object is getattr", lambda f: reg(f, object) is getattr),
     ], func='core.TargetRegistry._register_default_types'))
-    from contracts import extra
+    pass
     cs += common.shared(extra, ['core.Path.from_text'])
     # "the access registered for each intermediate value's type": the handler lookup and the registration that feeds it (contracts of C13)
     from contracts import C13
@@ -43,6 +44,12 @@ def contracts():
     # every path segment is argument-evaluated (arg_val): a non-spec segment such as a tuple or namedtuple key is passed through as it is
     from contracts import C08
     cs += common.shared(C08, ['core.arg_val', 'core._ArgValuator.mode'])
+    # round-5 dependencies: how a Path is built from its parts (a nested Path keeps its steps' access kinds), the recorder, scope lookup
+    from contracts import C18, C07, C14
+    cs += common.shared(C18, ['core.Path.__init__'])
+    cs += common.shared(C02, ['core._t_child'])
+    cs += common.shared(C07, ['core._s_first_magic'])
+    cs += common.shared(C14, ['core._extend_children'])
     return cs
 
 
